@@ -200,6 +200,11 @@ impl Monitor for C05 {
         4
     }
     fn gens(&self, tier: Tier) -> Vec<(&'static str, u64)> {
+        // the second build profile (NV_PLAIN: no overflow checks, no debug assertions) repeats the
+        // pool sweep only; Miri interprets the library itself and has no such profile
+        if std::env::var("NV_PLAIN").is_ok() {
+            return vec![("schedules", tier.pick(12, 600)), ("wide", tier.pick(8, 80)), ("stacks", tier.pick(4, 200)), ("images", tier.pick(6, 200))];
+        }
         vec![("miri", 1), ("schedules", tier.pick(24, 600)), ("wide", tier.pick(8, 80)), ("stacks", tier.pick(8, 200)), ("images", tier.pick(16, 200))]
     }
     fn rule(&self) -> &'static str {
@@ -474,7 +479,9 @@ impl Monitor for C05 {
         let assigns = agg.set_size("distinct_sample_to_worker_assignments") as u64;
         let orders = agg.set_size("distinct_task_start_orders") as u64;
         agg.extra.push(("distinct_schedules_per_case".into(), J::Num((orders as f64 / cases as f64 * 10.0).round() / 10.0)));
-        agg.require(agg.count("miri_scheduler_seeds_executed") >= 4, "Miri leg did not run".into());
+        if std::env::var("NV_PLAIN").is_err() {
+            agg.require(agg.count("miri_scheduler_seeds_executed") >= 4, "Miri leg did not run".into());
+        }
         agg.require(assigns >= 10 * cases && orders >= 20 * cases, format!("too little schedule diversity observed: {} assignments / {} start orders over {} cases", assigns, orders, cases));
     }
 }
